@@ -12,6 +12,7 @@ import ast
 
 from ..cfg import cfg_of
 from ..flow import flow_of, path_of
+from ..flow import deref
 from ..loader import FUNC, AnalysisError, dotted, last_name, loc, short, walk_local
 from ..util import ASYNC, REPEX, SCHED, SETUP, is_self_attr, last_key
 from ..variants import B, K
@@ -182,15 +183,23 @@ def r172(ctx):
     subs = [x for x in walk_local(s) if isinstance(x, ast.Call) and last_name(x) == "submit_work"]
     if len(subs) < 2:
         raise AnalysisError("R-17.2: expected two submit_work call sites in scheduler")
+    adds = [a for a in walk_local(s) if isinstance(a, ast.Call) and last_name(a) == "add" and a.args]
     for x in subs:
         par = x._parent
-        if isinstance(par, ast.Call) and last_name(par) == "add" and x in par.args:
+        via_temp = False
+        for a in adds:
+            e_, _at = deref(sfl, a.args[0], scfg.node_of(a))
+            if e_ is x:
+                via_temp = True
+        if (isinstance(par, ast.Call) and last_name(par) == "add" and x in par.args) or via_temp:
             ctx.ok(rid, x, "submitted work's future is handed to futures.add")
         else:
             ctx.bad(rid, x, "a submitted unit's future is not added to the managed list: its result is never consumed")
     tos = [x for x in walk_local(s) if isinstance(x, ast.Call) and last_name(x) == "treat_output"]
     for x in tos:
         a = x.args[0] if x.args else None
+        if a is not None:
+            a = deref(sfl, a, scfg.node_of(x))[0]
         ok = isinstance(a, ast.Call) and last_name(a) == "result" and isinstance(a.func, ast.Attribute)
         if ok:
             srcs = sfl.sources(a.func.value, scfg.node_of(x))
